@@ -189,6 +189,11 @@ func (c *BindingManager) RemoveBindingsForEntity(remoteEntity api.EntityRemoteIn
 
 		serverFeature := c.localDevice.FeatureByAddress(item.ServerFeature.Address())
 		clientFeature := remoteEntity.FeatureOfAddress(item.ClientFeature.Address().Feature)
+		if clientFeature == nil {
+			// the entity does not announce the feature any more, the event
+			// still has to name the feature the removed entry was about
+			clientFeature = item.ClientFeature
+		}
 		payload := api.EventPayload{
 			Ski:          remoteEntity.Device().Ski(),
 			EventType:    api.EventTypeBindingChange,
